@@ -3,8 +3,9 @@
    resolve_as_snippet, find_best_match, get_unmatched_part, resolve_keyword,
    resolve_numeric_value, has_field, wrap_with_field, is_value_scope,
    get_snippets_for_scope).  Follows the Python function by function; models the
-   repaired find_best_match (direct hit = equal names) and wrap_with_field
-   (numbers printed with frac).  Definitions only.
+   repaired find_best_match (direct hit = equal names), wrap_with_field
+   (numbers printed with frac) and resolve_gradient (property name under every
+   non-value scope, not applied in @@section scope).  Definitions only.
 
    Mutation: every function returns the new node.  The Python code shares the
    tokens of a snippet's default value with the node and resolve_numeric_value
@@ -300,7 +301,11 @@ Definition resolve_as_property (cfg : sconfig) (node : cssprop) (abbr : str)
   end.
 
 (* ---- resolve_gradient(node, config) *)
+Definition in_section_scope (cfg : sconfig) : bool :=
+  match c_context cfg with Some name => str_eqb name scope_section | None => false end.
+
 Definition resolve_gradient (cfg : sconfig) (node : cssprop) : option cssprop :=
+  if in_section_scope cfg then None else         (* repaired: section scope permits raw snippets only *)
   let gradient_fn :=
     match pvalue node with
     | [[VFunc name args]] => if str_eqb name gradient_name then Some args else None
@@ -315,10 +320,8 @@ Definition resolve_gradient (cfg : sconfig) (node : cssprop) : option cssprop :=
         | Some args => args
         | None => [[synth (CField [] (Some 0))]]
         end in
-      let name := match c_context cfg with
-                  | None => Some (lit "background-image")
-                  | Some _ => pname node
-                  end in
+      let name := if is_value_scope cfg then pname node         (* repaired: was `if not config.context` *)
+                  else Some (lit "background-image") in
       Some (mkProp name [[VFunc (lit "linear-gradient") gradient_value]] (pimportant node) true)
   end.
 
